@@ -1,5 +1,7 @@
 """C01 Scalar lookups return exactly the shipped table value, or an error."""
 from vlib.core import Group
+from vlib import specgen, audit
+from . import common, C10
 
 LEVEL = "proof"
 EXPLANATION = ("K1: every scalar accessor is enforced (goto-instrument --dfcc --enforce-contract) against the functional "
@@ -28,4 +30,16 @@ def groups(sc, tier):
         g = Group("C01.K1." + f, "K1", "h_" + f, sources=[src], extra=["harness/h_scalars.c"],
                   enforce=f, replace=["xrl_set_error_literal"], backends=("z3", "cvc5"), timeout=600, functions=[f], native_harness="harness/h_scalars.c")
         gs.append(g)
+    # single-line branches of LineEnergy / RadRate (K2, shared harness with C10)
+    gs += C10.line_groups(sc, tier, "C01", which=("single",))
+    # K3: macro <-> slot <-> name table (the table the build-time parser files data records by)
+    ctx = common.prepare(sc)
+    path, n = specgen.gen_name_chain(sc, ctx["mac"])
+    gs.append(Group("C01.K3.name_chain", "K3", "k3_names", sources=["src/xrayvars.c"], extra=[path], backends=("sat",),
+                    timeout=600, functions=["LineName[]", "ShellName[]", "TransName[]", "AugerName[]"], no_safety=True,
+                    note="%d macros" % n))
     return gs
+
+
+def audits(sc, tier, seed):
+    return audit.run_table_audit(sc, select=[r"^scalar\.", r"^compton\.shape", r"^lines\."])
